@@ -108,6 +108,13 @@ class Gen:
             idx = f"{base}+1" if base and base.startswith("@") else "#%x" % self.r.randrange(1, 2 ** 20)
             kind = "import_reg"
             rttl = self.r.choice(["-", "forever", "head:1", ttl if self.wild or not ttl.startswith("time") else "-"])
+            if self.r.random() < 0.25:
+                # an xs.context-topic frame OUTSIDE the zero context registers nothing
+                c = self.r.choice(self.ctxs[1:] + ["#7", "#%x" % self.r.randrange(1, 2 ** 64)])
+                ln = self.emit(f"import {idx} {c} {xh(XS_CONTEXT)} - {xh(meta) if meta else '-'} {rttl}", "import_reg_nonzero")
+                self.dead_ctxs.append(f"@{ln}")
+                self.frames.append(dict(line=ln, ctx=c, topic=XS_CONTEXT, ttl=rttl, kind="import"))
+                return
             ln = self.emit(f"import {idx} - {xh(XS_CONTEXT)} - {xh(meta) if meta else '-'} {rttl}", kind)
             self.ctxs.append(f"@{ln}")
             self.frames.append(dict(line=ln, ctx="-", topic=XS_CONTEXT, ttl=rttl, kind="ctx"))
